@@ -684,4 +684,192 @@ theorem titleBytes_injective (t1 t2 : List Nat) (h1 : ∀ c ∈ t1, IsScalar c) 
 example : decodeTitle (titleBytes [0x41, 0x0A, 0xE9, 0x1F600, 0xFEFF]) = .ok [0x41, 0x0A, 0xE9, 0x1F600, 0xFEFF] :=
   title_roundtrip _ (by intro c hc; simp at hc; rcases hc with rfl | rfl | rfl | rfl | rfl <;> simp [IsScalar])
 
+/-! ## reading back: `get_outlines` on an embedded forest -/
+
+/-- dictionary stored directly at an id -/
+def dictAt (os : Objects) (q : ObjId) : Option Dict :=
+  match os.get q with
+  | some (.dict d) => some d
+  | _ => none
+
+theorem getDictionary_of_dictAt {os : Objects} {q : ObjId} {d : Dict} (h : dictAt os q = some d) :
+    getDictionary os q = some d := by
+  unfold dictAt at h
+  split at h
+  · rename_i d' hq
+    cases h
+    simp [getDictionary, getObject, hq, deref, derefAux, Obj.asDict]
+  · cases h
+
+theorem Dict.get_set (d : Dict) (k k' : Bytes) (v : Obj) :
+    (Dict.set d k v).get k' = if k = k' then some v else d.get k' := by
+  induction d with
+  | nil => simp [Dict.set, Dict.get]
+  | cons e r ih =>
+    obtain ⟨a, b⟩ := e
+    by_cases ha : a = k
+    · subst ha; by_cases hk : a = k' <;> simp [Dict.set, Dict.get, hk]
+    · by_cases hk : a = k'
+      · subst hk
+        have : ¬ k = a := fun e => ha e.symm
+        simp [Dict.set, Dict.get, ha, this]
+      · simp [Dict.set, Dict.get, ha, hk, ih]
+
+theorem Dict.get_set_ne (d : Dict) (k k' : Bytes) (v : Obj) (h : k ≠ k') : (Dict.set d k v).get k' = d.get k' := by
+  rw [Dict.get_set]; simp [h]
+theorem Dict.get_set_eq (d : Dict) (k : Bytes) (v : Obj) : (Dict.set d k v).get k = some v := by
+  rw [Dict.get_set]; simp
+theorem setOpt_get_ne (d : Dict) (k k' : Bytes) (v : Option ObjId) (h : k ≠ k') : (setOpt d k v).get k' = d.get k' := by
+  cases v <;> simp [setOpt, Dict.get_set_ne _ _ _ _ h]
+theorem setOpt_get_eq (d : Dict) (k : Bytes) (v : Option ObjId) :
+    (setOpt d k v).get k = match v with | some n => some (oref n) | none => d.get k := by
+  cases v <;> simp [setOpt, Dict.get_set_eq]
+theorem Dict.get_nil (k : Bytes) : Dict.get [] k = none := rfl
+
+theorem itemDict_get_A (parent : ObjId) (id : Nat) (title : List Nat) (f : Nat) (c : List Bytes) (page : ObjId)
+    (kids : List BT) (m : Nat) (prev next : Option ObjId) :
+    (itemDictOf parent (.node id title f c page kids) m prev next).get RD_A = some (.ref (m + 2) 0) := by
+  have e : RD_A = OL_A := by decide
+  rw [e]
+  simp only [itemDictOf]
+  split <;>
+    simp (disch := decide) only [setOpt_get_ne, Dict.get_set_ne, Dict.get_set_eq, baseItem, oref]
+
+theorem itemDict_get_title (parent : ObjId) (id : Nat) (title : List Nat) (f : Nat) (c : List Bytes) (page : ObjId)
+    (kids : List BT) (m : Nat) (prev next : Option ObjId) :
+    (itemDictOf parent (.node id title f c page kids) m prev next).get RD_TITLE =
+      some (.str (titleBytes title) .lit) := by
+  have e : RD_TITLE = OL_TITLE := by decide
+  rw [e]
+  simp only [itemDictOf]
+  split <;>
+    simp (disch := decide) only [setOpt_get_ne, Dict.get_set_ne, Dict.get_set_eq, baseItem, oref]
+
+theorem itemDict_get_first (parent : ObjId) (id : Nat) (title : List Nat) (f : Nat) (c : List Bytes) (page : ObjId)
+    (kids : List BT) (m : Nat) (prev next : Option ObjId) :
+    (itemDictOf parent (.node id title f c page kids) m prev next).get RD_FIRST =
+      (firstId kids (m + 2)).map oref := by
+  have e : RD_FIRST = OL_FIRST := by decide
+  rw [e]
+  simp only [itemDictOf]
+  cases kids with
+  | nil =>
+    simp (disch := decide) only [List.isEmpty_nil, if_true, setOpt_get_ne, Dict.get_set_ne, baseItem, Dict.get_nil,
+      firstId, Option.map]
+  | cons k ks =>
+    simp (disch := decide) only [List.isEmpty_cons, Bool.false_eq_true, if_false, setOpt_get_ne, Dict.get_set_ne,
+      setOpt_get_eq, firstId, Option.map]
+
+theorem itemDict_get_next (parent : ObjId) (id : Nat) (title : List Nat) (f : Nat) (c : List Bytes) (page : ObjId)
+    (kids : List BT) (m : Nat) (prev next : Option ObjId) :
+    (itemDictOf parent (.node id title f c page kids) m prev next).get RD_NEXT = next.map oref := by
+  have e : RD_NEXT = OL_NEXT := by decide
+  rw [e]
+  simp only [itemDictOf, setOpt_get_eq]
+  cases next with
+  | some n => rfl
+  | none =>
+    simp only [Option.map]
+    split <;>
+      simp (disch := decide) only [setOpt_get_ne, Dict.get_set_ne, baseItem, Dict.get_nil]
+
+/- the outline tree `get_outlines` is expected to return for a forest -/
+mutual
+def outN : BT → List Outline
+  | .node _ title _ _ page kids =>
+    Outline.dest (.str (titleBytes title) .lit) (oref page) (.name OL_FIT) ::
+      (if kids.isEmpty then [] else [Outline.sub (outL kids)])
+def outL : List BT → List Outline
+  | [] => []
+  | t :: ts => outN t ++ outL ts
+end
+
+theorem firstId_nil (m : Nat) : firstId [] m = none := rfl
+theorem firstId_cons (t : BT) (r : List BT) (m : Nat) : firstId (t :: r) m = some (m + 1, 0) := rfl
+
+theorem outL_cons_isEmpty (t : BT) (r : List BT) : (outL (t :: r)).isEmpty = false := by
+  cases t; simp [outL, outN]
+
+theorem EmbL_head {g : ObjId → Option Dict} {m : Nat} {parent : ObjId} {prev : Option ObjId} {t : BT} {r : List BT}
+    (h : EmbL g m parent prev (t :: r)) :
+    g (m + 1, 0) = some (itemDictOf parent t m prev (firstId r (m + 2 * t.size))) := by
+  cases t; simp only [EmbL, EmbN] at h; exact h.1.1
+
+theorem getOutline_item (os : Objects) (parent : ObjId) (id : Nat) (title : List Nat) (f : Nat) (c : List Bytes)
+    (page : ObjId) (kids : List BT) (m : Nat) (prev next : Option ObjId)
+    (hinfo : dictAt os (m + 2, 0) = some (infoDict page)) :
+    getOutline os (itemDictOf parent (.node id title f c page kids) m prev next) =
+      .item (.dest (.str (titleBytes title) .lit) (oref page) (.name OL_FIT)) := by
+  have hA := itemDict_get_A parent id title f c page kids m prev next
+  have hT := itemDict_get_title parent id title f c page kids m prev next
+  have hgd := getDictionary_of_dictAt hinfo
+  have hS : (infoDict page).get RD_S = some (.name OL_GOTO) := by
+    simp [infoDict, Dict.get, OL_D, OL_S, RD_S]
+  have hD : (infoDict page).get RD_D = some (.arr [oref page, .name OL_FIT]) := by
+    simp [infoDict, Dict.get, OL_D, RD_D]
+  have hgoto : ¬ (OL_GOTO ≠ RD_GOTO ∧ OL_GOTO ≠ RD_GOTOR) := by decide
+  simp only [getOutline, getDictInDict, hA, hgd, hS, Option.bind, Obj.asName, hgoto, if_false, hT, hD]
+  simp [buildOutlineResult, borDirect, oref]
+
+/-- **walk.** On any document whose objects embed the sibling list `t :: r` (with whatever else is in
+the document), for all fuel ≥ the number of bookmarks, `get_outlines` started at the first sibling
+appends exactly the outline tree of the forest: one destination per bookmark, in order, each
+followed by the sub-list of its children. -/
+theorem walk_emb (os : Objects) : ∀ (fuel : Nat) (t : BT) (r : List BT) (m : Nat) (parent : ObjId)
+    (prev : Option ObjId) (acc : List Outline),
+    BT.sizeL (t :: r) ≤ fuel → EmbL (dictAt os) m parent prev (t :: r) →
+    walk os fuel (itemDictOf parent t m prev (firstId r (m + 2 * t.size))) acc = .ok (acc ++ outL (t :: r)) := by
+  intro fuel
+  induction fuel with
+  | zero =>
+    intro t r m parent prev acc hsz _
+    have := BT.size_pos t; simp [BT.sizeL] at hsz; omega
+  | succ fu ih =>
+    intro t r m parent prev acc hsz hE
+    cases t with
+    | node id title f c page kids =>
+      have hE' := hE
+      simp only [EmbL, EmbN] at hE'
+      obtain ⟨⟨_, h2, h3⟩, h4⟩ := hE'
+      simp only [BT.sizeL, BT.size] at hsz
+      rw [walk]
+      simp only [getOutline_item os parent id title f c page kids m prev _ h2,
+        itemDict_get_first, getDictInDict, itemDict_get_next]
+      have hsub : ∀ (k : BT) (ks : List BT), kids = k :: ks →
+          getDictionary os (m + 2 + 1, 0) = some (itemDictOf (m + 1, 0) k (m + 2) none (firstId ks (m + 2 + 2 * k.size))) ∧
+          walk os fu (itemDictOf (m + 1, 0) k (m + 2) none (firstId ks (m + 2 + 2 * k.size))) [] = .ok (outL (k :: ks)) := by
+        intro k ks e; subst e
+        refine ⟨getDictionary_of_dictAt (EmbL_head h3), ?_⟩
+        have := ih k ks (m + 2) (m + 1, 0) none [] (by simp only [BT.sizeL] at hsz ⊢; omega) h3
+        simpa using this
+      have hnext : ∀ (t2 : BT) (r' : List BT), r = t2 :: r' →
+          getDictionary os (m + 2 * (1 + BT.sizeL kids) + 1, 0) =
+            some (itemDictOf parent t2 (m + 2 * (1 + BT.sizeL kids)) (some (m + 1, 0))
+              (firstId r' (m + 2 * (1 + BT.sizeL kids) + 2 * t2.size))) ∧
+          ∀ acc2, walk os fu (itemDictOf parent t2 (m + 2 * (1 + BT.sizeL kids)) (some (m + 1, 0))
+              (firstId r' (m + 2 * (1 + BT.sizeL kids) + 2 * t2.size))) acc2 = .ok (acc2 ++ outL (t2 :: r')) := by
+        intro t2 r' e; subst e
+        simp only [BT.size] at h4
+        refine ⟨getDictionary_of_dictAt (EmbL_head h4), ?_⟩
+        intro acc2
+        exact ih t2 r' _ parent (some (m + 1, 0)) acc2 (by simp only [BT.sizeL] at hsz ⊢; omega) h4
+      cases kids with
+      | nil =>
+        cases r with
+        | nil => simp [firstId, outL, outN, oref]
+        | cons t2 r' =>
+          obtain ⟨hn, hw2⟩ := hnext t2 r' rfl
+          simp only [firstId_cons, firstId_nil, Option.map, oref, BT.size, hn, hw2]
+          simp [outL, outN, oref]
+      | cons k ks =>
+        obtain ⟨hk, hw1⟩ := hsub k ks rfl
+        cases r with
+        | nil =>
+          simp only [firstId_cons, firstId_nil, Option.map, oref, hk, hw1, outL_cons_isEmpty]
+          simp [outL, outN, oref]
+        | cons t2 r' =>
+          obtain ⟨hn, hw2⟩ := hnext t2 r' rfl
+          simp only [firstId_cons, Option.map, oref, hk, hw1, outL_cons_isEmpty, BT.size, hn, hw2]
+          simp [outL, outN, oref]
+
 end Lopdf
